@@ -395,3 +395,310 @@ Proof.
   - replace (N.of_nat (length st) =? 3)%N with false by lia. cbn [negb].
     eexists; (split; [reflexivity|]); unfold resp_proj; cbn; auto.
 Qed.
+
+(* ------------------------------------------------------------------ btrim *)
+Lemma nth_skipn' {A} (d : A) i : forall k l, nth k (skipn i l) d = nth (i + k) l d.
+Proof.
+  induction i as [|i IH]; intros k l; [reflexivity|].
+  destruct l as [|x l]; [destruct k; reflexivity|]. cbn [skipn Nat.add nth]. apply IH.
+Qed.
+Lemma firstn_snoc {A} (d : A) k : forall m, (k < length m)%nat ->
+  firstn (S k) m = firstn k m ++ [nth k m d].
+Proof.
+  induction k as [|k IH]; intros [|x m] H; cbn [length] in H; try lia; [reflexivity|].
+  cbn [firstn nth app]. f_equal. apply IH. lia.
+Qed.
+
+Lemma g2_btrim_zb l : fits l -> g2_btrim (zb l) = Ok (zb (btrim l)).
+Proof.
+  unfold fits. intros Hfit. unfold g2_btrim. rewrite !go_len_zb, zb_length.
+  remember (Z.of_nat (length l)) as n eqn:Hn.
+  match goal with |- context [go_loop ?f ?b 0] => set (body1 := b) end.
+  destruct (go_loop_rule (R := list Z)
+    (fun i => 0 <= i <= n /\ drop_blank l = drop_blank (skipn (Z.to_nat i) l))
+    (fun i => Z.to_nat (n - i))
+    (fun o => match o with
+              | inl i => 0 <= i <= n /\ drop_blank l = skipn (Z.to_nat i) l
+              | inr _ => False
+              end)
+    body1) with (fuel := (length l + 65)%nat) (s := 0) as (o & Eo & HQ).
+  - intros i (Hi & Hm). subst body1. cbv beta.
+    destruct (i <? n) eqn:Ein.
+    + rewrite !go_index_zb by lia.
+      rewrite (skipn_nth 0%N) in Hm by lia. set (c := nth (Z.to_nat i) l 0%N) in *.
+      cbn [drop_blank] in Hm. unfold is_blank in Hm. cbn [bind].
+      destruct (Z.of_N c =? 32) eqn:E32; cbn [bind].
+      * replace ((c =? 32)%N || (c =? 9)%N) with true in Hm by lia.
+        rewrite (wrap_s64_id (i + 1)) by lia. split; [|lia]. split; [lia|].
+        replace (Z.to_nat (i + 1)) with (S (Z.to_nat i)) by lia. exact Hm.
+      * destruct (Z.of_N c =? 9) eqn:E9.
+        { replace ((c =? 32)%N || (c =? 9)%N) with true in Hm by lia.
+          rewrite (wrap_s64_id (i + 1)) by lia. split; [|lia]. split; [lia|].
+          replace (Z.to_nat (i + 1)) with (S (Z.to_nat i)) by lia. exact Hm. }
+        replace ((c =? 32)%N || (c =? 9)%N) with false in Hm by lia.
+        split; [lia|]. rewrite (skipn_nth 0%N) by lia. exact Hm.
+    + cbn [bind]. split; [lia|]. rewrite Hm. assert (i = n) by lia. subst i n.
+      rewrite Nat2Z.id, skipn_all. reflexivity.
+  - change (Z.to_nat 0) with 0%nat. cbn [skipn]. split; [lia|reflexivity].
+  - lia.
+  - rewrite Eo. cbn [bind]. destruct o as [i|r]; [|contradiction]. destruct HQ as (Hi & Hdrop).
+    set (m := skipn (Z.to_nat i) l) in *.
+    assert (Hlm : length m = (length l - Z.to_nat i)%nat) by (subst m; apply skipn_length).
+    match goal with |- context [go_loop ?f ?b n] => set (body2 := b) end.
+    destruct (go_loop_rule (R := list Z)
+      (fun j => i <= j <= n /\ drop_blank (rev m) = drop_blank (rev (firstn (Z.to_nat (j - i)) m)))
+      (fun j => Z.to_nat j)
+      (fun o => match o with
+                | inl j => i <= j <= n /\ rev (drop_blank (rev m)) = firstn (Z.to_nat (j - i)) m
+                | inr _ => False
+                end)
+      body2) with (fuel := (length l + 65)%nat) (s := n) as (o2 & Eo2 & HQ2).
+    + intros j (Hj & Hm). subst body2. cbv beta.
+      destruct (i <? j) eqn:Eij.
+      * rewrite (wrap_s64_id (j - 1)) by lia. rewrite !go_index_zb by lia.
+        assert (Ec : nth (Z.to_nat (j - 1)) l 0%N = nth (Z.to_nat (j - 1 - i)) m 0%N).
+        { subst m. rewrite nth_skipn'. f_equal. lia. }
+        set (c := nth (Z.to_nat (j - 1)) l 0%N) in *.
+        replace (Z.to_nat (j - i)) with (S (Z.to_nat (j - 1 - i))) in Hm by lia.
+        rewrite (firstn_snoc 0%N) in Hm by lia. rewrite <- Ec in Hm.
+        rewrite rev_unit in Hm. cbn [drop_blank] in Hm. unfold is_blank in Hm. cbn [bind].
+        destruct (Z.of_N c =? 32) eqn:E32; cbn [bind].
+        { replace ((c =? 32)%N || (c =? 9)%N) with true in Hm by lia.
+          split; [|lia]. split; [lia|]. exact Hm. }
+        destruct (Z.of_N c =? 9) eqn:E9.
+        { replace ((c =? 32)%N || (c =? 9)%N) with true in Hm by lia.
+          split; [|lia]. split; [lia|]. exact Hm. }
+        replace ((c =? 32)%N || (c =? 9)%N) with false in Hm by lia.
+        split; [lia|]. rewrite Hm.
+        replace (Z.to_nat (j - i)) with (S (Z.to_nat (j - 1 - i))) by lia.
+        rewrite (firstn_snoc 0%N) by lia. rewrite <- Ec. rewrite <- rev_unit. apply rev_involutive.
+      * cbn [bind]. assert (j = i) by lia. subst j. split; [lia|]. rewrite Hm.
+        rewrite Z.sub_diag. reflexivity.
+    + split; [lia|]. rewrite firstn_all2 by lia. reflexivity.
+    + lia.
+    + rewrite Eo2. cbn [bind]. destruct o2 as [j|r]; [|contradiction]. destruct HQ2 as (Hj & Hres).
+      rewrite go_slice_zb by lia. cbn [bind]. fold m. rewrite <- Hres. unfold btrim. rewrite Hdrop. reflexivity.
+Qed.
+
+(* ------------------------------------------------------------------ canonicalizeHeaderKey *)
+Lemma byte_sweep (P : N -> bool) :
+  forallb P (map N.of_nat (seq 0 256)) = true -> forall c, (c < 256)%N -> P c = true.
+Proof.
+  intros H c Hc. rewrite forallb_forall in H. apply H. apply in_map_iff.
+  exists (N.to_nat c). split; [lia|]. apply in_seq. lia.
+Qed.
+Lemma land_upper c : (97 <= c <= 122)%N -> Z.land (Z.of_N c) 223 = Z.of_N (c - 32).
+Proof.
+  intros H. apply Z.eqb_eq.
+  assert (S : forall c, (c < 256)%N ->
+            (negb ((97 <=? c)%N && (c <=? 122)%N) || (Z.land (Z.of_N c) 223 =? Z.of_N (c - 32))) = true).
+  { apply byte_sweep. vm_compute. reflexivity. }
+  specialize (S c ltac:(lia)). replace ((97 <=? c)%N && (c <=? 122)%N) with true in S by lia. exact S.
+Qed.
+Lemma lor_lower c : (65 <= c <= 90)%N -> Z.lor (Z.of_N c) 32 = Z.of_N (c + 32).
+Proof.
+  intros H. apply Z.eqb_eq.
+  assert (S : forall c, (c < 256)%N ->
+            (negb ((65 <=? c)%N && (c <=? 90)%N) || (Z.lor (Z.of_N c) 32 =? Z.of_N (c + 32))) = true).
+  { apply byte_sweep. vm_compute. reflexivity. }
+  specialize (S c ltac:(lia)). replace ((65 <=? c)%N && (c <=? 90)%N) with true in S by lia. exact S.
+Qed.
+
+Lemma go_index_app a x b : go_index (a ++ x :: b) (Z.of_nat (length a)) = Ok x.
+Proof.
+  unfold go_index, go_len. rewrite app_length. cbn [length].
+  replace ((0 <=? Z.of_nat (length a)) && (Z.of_nat (length a) <? Z.of_nat (length a + S (length b)))) with true by lia.
+  rewrite Nat2Z.id, app_nth2, Nat.sub_diag by lia. reflexivity.
+Qed.
+
+Lemma g2_canonicalizeHeaderKey_zb l : fits l -> g2_canonicalizeHeaderKey (zb l) = Ok (zb (canonicalize l)).
+Proof.
+  unfold fits. intros Hfit. unfold g2_canonicalizeHeaderKey, canonicalize. rewrite go_len_zb, zb_length.
+  match goal with |- context [go_loop ?f ?b ?s] => set (body := b) end.
+  destruct (go_loop_rule (R := list Z)
+    (fun '(i, k, upper) => exists done, i = Z.of_nat (length done) /\ (length done <= length l)%nat /\
+        k = zb done ++ zb (skipn (length done) l) /\
+        canon_key true l = done ++ canon_key upper (skipn (length done) l))
+    (fun '(i, k, upper) => Z.to_nat (Z.of_nat (length l) - i))
+    (fun o => match o with
+              | inl (i, k, upper) => k = zb (canon_key true l)
+              | inr _ => False
+              end)
+    body) with (fuel := (length l + 65)%nat) (s := (0, zb l, true)) as (o & Eo & HQ).
+  - intros [[i k] upper] (done & Hi & Hd & Hk & Hc). subst body. cbv beta iota.
+    destruct (i <? Z.of_nat (length l)) eqn:Ein.
+    + rewrite (skipn_nth 0%N) in Hk, Hc by lia. set (c := nth (length done) l 0%N) in *.
+      set (rest := skipn (S (length done)) l) in *.
+      cbn [zb map] in Hk. fold (zb rest) in Hk. cbn [canon_key] in Hc.
+      assert (Hld : length (zb done) = length done) by apply zb_length.
+      subst i k. rewrite <- Hld. rewrite !go_index_app. cbn [bind].
+      assert (Hnext : forall c' : N,
+        canon_key true l = done ++ c' :: canon_key (c =? 45)%N rest ->
+        exists done0 : list N,
+          Z.of_nat (length done) + 1 = Z.of_nat (length done0) /\ (length done0 <= length l)%nat /\
+          zb done ++ Z.of_N c' :: zb rest = zb done0 ++ zb (skipn (length done0) l) /\
+          canon_key true l = done0 ++ canon_key (Z.of_N c =? 45) (skipn (length done0) l)).
+      { intros c' Hc'. exists (done ++ [c']). rewrite app_length. cbn [length].
+        replace (length done + 1)%nat with (S (length done)) by lia. fold rest.
+        split; [lia|]. split; [lia|]. split.
+        - rewrite zb_app, <- app_assoc. reflexivity.
+        - rewrite <- app_assoc. replace (Z.of_N c =? 45) with (c =? 45)%N by lia. exact Hc'. }
+      destruct ((upper && (97 <=? Z.of_N c)) && (Z.of_N c <=? 122)) eqn:EA.
+      * rewrite go_set_index_app. cbn [bind]. rewrite Hld.
+        replace (upper && (97 <=? c)%N && (c <=? 122)%N) with true in Hc by (destruct upper; lia).
+        rewrite land_upper by (destruct upper; lia). split; [|lia]. apply Hnext. exact Hc.
+      * replace (upper && (97 <=? c)%N && (c <=? 122)%N) with false in Hc by (destruct upper; lia).
+        destruct ((negb upper && (65 <=? Z.of_N c)) && (Z.of_N c <=? 90)) eqn:EB.
+        { rewrite ?go_index_app. cbn [bind]. rewrite go_set_index_app. cbn [bind]. rewrite Hld.
+          replace (negb upper && (65 <=? c)%N && (c <=? 90)%N) with true in Hc by (destruct upper; lia).
+          rewrite lor_lower by (destruct upper; lia). split; [|lia]. apply Hnext. exact Hc. }
+        replace (negb upper && (65 <=? c)%N && (c <=? 90)%N) with false in Hc by (destruct upper; lia).
+        rewrite Hld. split; [|lia]. apply Hnext. exact Hc.
+    + assert (length done = length l) by lia. rewrite H, skipn_all in Hk, Hc. cbn [canon_key zb map] in Hk, Hc.
+      rewrite app_nil_r in Hk, Hc. subst k. rewrite Hc. reflexivity.
+  - exists []. cbn [length skipn app zb map]. repeat split; try lia.
+  - lia.
+  - rewrite Eo. cbn [bind]. destruct o as [[[i k] upper]|r]; [|contradiction]. rewrite HQ. reflexivity.
+Qed.
+
+(* ------------------------------------------------------------------ httpParseHeaderLine *)
+Definition hdr_proj (r : list Z * list Z * bool) : option (list N * list N) :=
+  let '(k, v, ok) := r in if ok then Some (nb k, nb v) else None.
+
+Lemma btrim_length l : (length (btrim l) <= length l)%nat.
+Proof.
+  assert (D : forall m, (length (drop_blank m) <= length m)%nat).
+  { induction m as [|c m IH]; cbn [drop_blank length]; [lia|]. destruct (is_blank c); cbn [length]; lia. }
+  unfold btrim. rewrite rev_length. etransitivity; [apply D|]. rewrite rev_length. apply D.
+Qed.
+
+Lemma g2_httpParseHeaderLine_zb l : fits l ->
+  exists r, g2_httpParseHeaderLine (zb l) = Ok r /\ hdr_proj r = http_parse_header_line l.
+Proof.
+  intros Hfit. unfold g2_httpParseHeaderLine, http_parse_header_line. rewrite go_len_zb.
+  change 58 with (Z.of_N 58%N).
+  destruct (split_byte 58%N l) as [[k v]|] eqn:E.
+  - destruct (go_index_byte_some 58%N l k v E) as [Ea El]. rewrite Ea. unfold byte in *.
+    assert (Hlen : length l = (length k + S (length v))%nat) by (rewrite El, app_length; reflexivity).
+    unfold fits in Hfit.
+    replace (Z.of_nat (length k) =? -1) with false by lia.
+    rewrite (wrap_s64_id (Z.of_nat (length k) + 1)) by lia.
+    replace (Z.of_nat (length k) + 1) with (Z.of_nat (S (length k))) by lia.
+    change 0 with (Z.of_nat 0). rewrite !go_slice_nat by lia. cbn [bind]. change (skipn 0 l) with l.
+    rewrite Nat.sub_0_r.
+    replace (firstn (length k) l) with k by (rewrite El; symmetry; apply firstn_app_exact).
+    replace (firstn (length l - S (length k)) (skipn (S (length k)) l)) with v
+      by (rewrite Hlen, El; rewrite skipn_app_cons; symmetry; apply firstn_all2; lia).
+    rewrite (g2_btrim_zb k) by (unfold fits; lia). cbn [bind].
+    rewrite g2_canonicalizeHeaderKey_zb by (unfold fits; pose proof (btrim_length k); unfold byte in *; lia). cbn [bind].
+    rewrite (g2_btrim_zb v) by (unfold fits; lia). cbn [bind].
+    eexists; split; [reflexivity|]. cbn [hdr_proj]. rewrite !nb_zb. reflexivity.
+  - rewrite (go_index_byte_none 58%N l E). eexists; split; reflexivity.
+Qed.
+
+(* ------------------------------------------------------------------ pow *)
+Definition pow_acc (a b p : Z) : Z := match b with Zpos q => pow64_pos a p q | _ => p end.
+Definition pow_meas (b : Z) : nat := match b with Zpos q => S (Z.to_nat (Z.log2 (Zpos q))) | _ => O end.
+
+Lemma g2_pow_ok a b : b <= 9223372036854775807 -> g2_pow a b = Ok (pow64 a (Z.to_N b)).
+Proof.
+  intros Hb. unfold g2_pow.
+  match goal with |- context [go_loop ?f ?bd ?s] => set (body := bd) end.
+  destruct (go_loop_rule (R := Z)
+    (fun '(a', b', p') => b' <= 9223372036854775807 /\ pow_acc a' b' p' = pow_acc a b 1)
+    (fun '(a', b', p') => pow_meas b')
+    (fun o => match o with
+              | inl (a', b', p') => p' = pow_acc a b 1
+              | inr _ => False
+              end)
+    body) with (fuel := 65%nat) (s := (a, b, 1)) as (o & Eo & HQ).
+  - intros [[a' b'] p'] (Hb' & Hacc). subst body. cbv beta iota.
+    destruct b' as [|q|q]; cbn [Z.ltb Z.compare]; [exact Hacc| |exact Hacc].
+    change (wrap_s 64 (p' * a')) with (wrap64 (p' * a')). change (wrap_s 64 (a' * a')) with (wrap64 (a' * a')).
+    unfold pow_acc in Hacc at 1. unfold pow_meas at 2.
+    destruct q as [q|q|].
+    + change (Z.land (Z.pos q~1) 1) with 1. change (Z.shiftr (Z.pos q~1) 1) with (Z.pos q). cbn [Z.eqb negb].
+      cbn [pow64_pos] in Hacc. split; [split; [lia|exact Hacc]|].
+      unfold pow_meas. rewrite Pos2Z.inj_xI, Z.log2_succ_double by lia.
+      pose proof (Z.log2_nonneg (Z.pos q)). lia.
+    + change (Z.land (Z.pos q~0) 1) with 0. change (Z.shiftr (Z.pos q~0) 1) with (Z.pos q). cbn [Z.eqb negb].
+      cbn [pow64_pos] in Hacc. split; [split; [lia|exact Hacc]|].
+      unfold pow_meas. rewrite Pos2Z.inj_xO, Z.log2_double by lia.
+      pose proof (Z.log2_nonneg (Z.pos q)). lia.
+    + change (Z.land 1 1) with 1. change (Z.shiftr 1 1) with 0. cbn [Z.eqb negb].
+      cbn [pow64_pos] in Hacc. split; [split; [lia|exact Hacc]|]. cbn [pow_meas]. lia.
+  - split; [exact Hb|reflexivity].
+  - unfold pow_meas. destruct b as [|q|q]; try lia.
+    assert (Z.log2 (Z.pos q) < 63) by (apply Z.log2_lt_pow2; lia). pose proof (Z.log2_nonneg (Z.pos q)). lia.
+  - rewrite Eo. cbn [bind]. destruct o as [[[a' b'] p']|r]; [|contradiction]. rewrite HQ.
+    unfold pow_acc, pow64. destruct b; reflexivity.
+Qed.
+
+(* ------------------------------------------------------------------ statements over Z lists *)
+(* every element a byte, the length an int: what a Go []byte is *)
+Definition go_slice_val (l : list Z) : Prop := go_bytes l /\ go_fits l.
+
+Lemma slice_val_zb l : go_slice_val l -> zb (nb l) = l /\ fits (nb l).
+Proof.
+  intros [Hb Hf]. split; [apply zb_nb, Hb|]. unfold fits, nb. rewrite map_length. exact Hf.
+Qed.
+
+Ltac to_zb l H :=
+  let E := fresh "E" in let F := fresh "F" in let l' := fresh "l'" in let Hl := fresh "Hl" in
+  destruct (slice_val_zb l H) as [E F]; remember (nb l) as l' eqn:Hl; clear Hl H; subst l.
+
+Theorem source_asciiToInt l : go_slice_val l ->
+  g2_asciiToInt l = Ok (ati_res (ascii_to_int (nb l))).
+Proof. intros H. to_zb l H. apply g2_asciiToInt_zb; assumption. Qed.
+
+Theorem source_bsplit3 l c : go_slice_val l -> 0 <= c < 256 ->
+  g2_bsplit3 l c = Ok (zb3 (bsplit3 (nb l) (Z.to_N c))).
+Proof.
+  intros H Hc. to_zb l H.
+  replace c with (Z.of_N (Z.to_N c)) at 1 by lia. apply g2_bsplit3_zb. assumption.
+Qed.
+
+Theorem source_btrim l : go_slice_val l -> g2_btrim l = Ok (zb (btrim (nb l))).
+Proof. intros H. to_zb l H. apply g2_btrim_zb; assumption. Qed.
+
+Theorem source_canonicalizeHeaderKey l : go_slice_val l ->
+  g2_canonicalizeHeaderKey l = Ok (zb (canonicalize (nb l))).
+Proof. intros H. to_zb l H. apply g2_canonicalizeHeaderKey_zb; assumption. Qed.
+
+Theorem source_httpParseVersion l : go_slice_val l ->
+  exists r, g2_httpParseVersion l = Ok r /\ ver_proj r = http_parse_version ascii_to_int (nb l).
+Proof. intros H. to_zb l H. apply g2_httpParseVersion_zb; assumption. Qed.
+
+Theorem source_httpParseRequestLine l : go_slice_val l ->
+  exists r, g2_httpParseRequestLine l = Ok r
+            /\ req_proj r = http_parse_request_line ascii_to_int (nb l)
+            /\ (snd r = None \/ snd r = Some E_ErrMalformedRequest).
+Proof. intros H. to_zb l H. apply g2_httpParseRequestLine_zb; assumption. Qed.
+
+Theorem source_httpParseResponseLine l : go_slice_val l ->
+  exists r, g2_httpParseResponseLine l = Ok r
+            /\ resp_proj r = http_parse_response_line ascii_to_int (nb l)
+            /\ (snd r = None \/ snd r = Some E_ErrMalformedResponse).
+Proof. intros H. to_zb l H. apply g2_httpParseResponseLine_zb; assumption. Qed.
+
+Theorem source_httpParseHeaderLine l : go_slice_val l ->
+  exists r, g2_httpParseHeaderLine l = Ok r /\ hdr_proj r = http_parse_header_line (nb l).
+Proof. intros H. to_zb l H. apply g2_httpParseHeaderLine_zb; assumption. Qed.
+
+(* no panic, no exhausted fuel: the four handshake line parsers and their helpers *)
+Definition normal {A} (r : res A) : Prop := exists a, r = Ok a.
+
+Theorem source_no_panic l : go_slice_val l ->
+  normal (g2_httpParseRequestLine l) /\ normal (g2_httpParseResponseLine l) /\
+  normal (g2_httpParseHeaderLine l) /\ normal (g2_httpParseVersion l) /\
+  normal (g2_asciiToInt l) /\ normal (g2_btrim l) /\ normal (g2_canonicalizeHeaderKey l) /\
+  (forall c, 0 <= c < 256 -> normal (g2_bsplit3 l c)).
+Proof.
+  intros H. unfold normal.
+  destruct (source_httpParseRequestLine l H) as (r1 & E1 & _).
+  destruct (source_httpParseResponseLine l H) as (r2 & E2 & _).
+  destruct (source_httpParseHeaderLine l H) as (r3 & E3 & _).
+  destruct (source_httpParseVersion l H) as (r4 & E4 & _).
+  repeat split; eauto using source_asciiToInt, source_btrim, source_canonicalizeHeaderKey.
+  intros c Hc. eexists. apply source_bsplit3; assumption.
+Qed.
